@@ -494,7 +494,8 @@ class ExprFormatted(Expr):
 
     def iterate(self, *, flat: bool = True) -> Iterator[str | Expr]:
         yield "{"
-        yield from _yield(self.value, flat=flat, precedence=_PREC_TEST)
+        # A lambda or conditional expression needs parentheses there (its colon would start the format specification).
+        yield from _yield(self.value, flat=flat, precedence=_PREC_TEST + 1)
         yield "}"
 
 
